@@ -19,10 +19,10 @@ def sh(cmd, cwd, env=None, timeout=1800):
 
 def main():
     ap = argparse.ArgumentParser()
-    ap.add_argument("prop"); ap.add_argument("worktree"); ap.add_argument("--demo-args", default=""); ap.add_argument("--name")
+    ap.add_argument("prop"); ap.add_argument("worktree"); ap.add_argument("--demo-args", default=""); ap.add_argument("--name"); ap.add_argument("--sub", default="N")
     a = ap.parse_args()
     name = a.name or (a.prop + "-n")
-    seed = os.path.join(a.worktree, "_seed", "N")
+    seed = os.path.join(a.worktree, "_seed", a.sub)
     patch = os.path.join(seed, "patch.diff")
     demo = os.path.join(a.worktree, "_seed", "A", "demo.rs")
     root = tempfile.mkdtemp(prefix="cacache-neutral-%s-" % name, dir="/tmp")
